@@ -251,9 +251,12 @@ func main() {
 					known["(crash)"] = "see above"
 				default:
 					ln := fmt.Sprintf("VIOLATION property=%s replay=%s", id, rp)
-					if _, ok := violations[ln]; !ok {
-						violations[ln] = ln
+					key := "crash:" + lastCrashSig
+					if _, ok := violations[key]; !ok {
+						violations[key] = ln
 						violOrder = append(violOrder, ln)
+					} else {
+						os.Remove(rp)
 					}
 				}
 			} else {
@@ -507,9 +510,41 @@ func replay(id, bin, file string, verbose bool) int {
 		fmt.Printf("KNOWN-FINDING: property=%s %s [%s]\n", id, what, sig)
 		return 3
 	}
-	fmt.Printf("VIOLATED property=%s clause=no-crash signature=%s\n  process died replaying the case: %s\n", id, sig, tail(text, 1200))
-	fmt.Printf("VIOLATION property=%s replay=%s\n", id, abs)
+	lastCrashSig = sig
+	if verbose || !seenCrash[sig] {
+		seenCrash[sig] = true
+		fmt.Printf("VIOLATED property=%s clause=no-crash signature=%s\n  process died replaying the case: %s\n", id, sig, crashHead(text))
+	}
+	if verbose {
+		fmt.Printf("VIOLATION property=%s replay=%s\n", id, abs)
+	}
 	return 1
+}
+
+var (
+	seenCrash    = map[string]bool{}
+	lastCrashSig string
+)
+
+// crashHead extracts the error line and the first goyang frames of a Go crash report.
+func crashHead(text string) string {
+	var out []string
+	lines := strings.Split(text, "\n")
+	for i, ln := range lines {
+		if strings.HasPrefix(ln, "fatal error:") || strings.HasPrefix(ln, "panic:") || strings.HasPrefix(ln, "runtime: goroutine stack exceeds") {
+			out = append(out, strings.TrimSpace(ln))
+		}
+		if strings.HasPrefix(ln, "github.com/openconfig/goyang") && len(out) < 8 {
+			out = append(out, strings.TrimSpace(ln))
+			if i+1 < len(lines) {
+				out = append(out, strings.TrimSpace(lines[i+1]))
+			}
+		}
+	}
+	if len(out) == 0 {
+		return tail(text, 600)
+	}
+	return strings.Join(out, " | ")
 }
 
 func printKnown(text string) {
